@@ -103,6 +103,10 @@ func genDispatch(c *ctx) string {
 	b.WriteString("def dirArgWrapperAccepted : Bool := " + dirArgTypeTest(c) + "\n")
 	b.WriteString("def descRaw : Bool := " + descForm(c) + "\n")
 	b.WriteString("def assureOnce : Bool := " + assureSchemaForm(c) + "\n")
+	dru, drt, esn := dirUseForms(c)
+	b.WriteString("def dirRequiredUnchecked : Bool := " + dru + "\n")
+	b.WriteString("def dirRefTypeFirst : Bool := " + drt + "\n")
+	b.WriteString("def extendSchemaNeedsSchema : Bool := " + esn + "\n")
 	b.WriteString("def dupKeyOverwrites : Bool := " + dupKeyForm(c) + "\n")
 	ufc, inb := bindingForms(c)
 	b.WriteString("def unionFirstCome : Bool := " + ufc + "\n")
@@ -757,4 +761,55 @@ func dupKeyForm(c *ctx) string {
 		return unknown("mergeValue body", c.pos(fd))
 	}
 	return unknown("resolveField tail", c.pos(fd))
+}
+
+// dirUseForms reads three places where a schema depended on whether its definitions arrive in one document or in
+// several (found by a sub-agent while looking for a C16 seed):
+// dirRequiredUnchecked (D78): validateDirUse does not ask for required arguments — a use that leaves one out is
+//   accepted unless the directive was known to the parser (earlier load), which fills in a nil default that then
+//   fails coercion;
+// dirRefTypeFirst (D79): replaceDirRefs only resolves *Ref — a use `@foo` the parser bound to a *type* named foo
+//   (types are looked up first, and only definitions of earlier loads are known to the parser) stays a type;
+// extendSchemaNeedsSchema (D80): `extend schema` needs root.schema, which for an implied schema only exists
+//   after the first load.  Whole-text matches; two known forms each.
+func dirUseForms(c *ctx) (dirRequiredUnchecked, dirRefTypeFirst, extendSchemaNeedsSchema string) {
+	dirRequiredUnchecked, dirRefTypeFirst, extendSchemaNeedsSchema = unknown("validateDirUse", "root.go"), unknown("replaceDirRefs", "root.go"), unknown("addExtends schema arm", "root.go")
+	norm := func(n ast.Node) string {
+		t := regexp.MustCompile(`(?m)//.*$`).ReplaceAllString(c.src(n), "")
+		return regexp.MustCompile(`\s+`).ReplaceAllString(t, " ")
+	}
+	if fd := c.funcs["Root.validateDirUse"]; fd != nil {
+		src := norm(fd.Body)
+		const req = `for _, da := range d.args.list { if du.Args[da.N] == nil && da.Default == nil { if _, ok := da.Type.(*NonNull); ok { errs = append(errs, fmt.Errorf("%w, directive argument %s for directive %s on %s is required but missing at %d:%d", ErrValidation, da.N, d.Name(), where, du.line, du.col)) } } } var a *Arg`
+		switch {
+		case strings.Contains(src, req):
+			dirRequiredUnchecked = "false"
+		case !strings.Contains(src, "d.args.list") && !strings.Contains(src, "required") && strings.Contains(src, "d.Name(), where, loc, du.line, du.col)) } var a *Arg"):
+			dirRequiredUnchecked = "true"
+		default:
+			dirRequiredUnchecked = unknown("validateDirUse body", c.pos(fd))
+		}
+	}
+	if fd := c.funcs["Root.replaceDirRefs"]; fd != nil {
+		switch norm(fd.Body) {
+		case `{ for _, du := range dirs { t := du.Directive if tt, _ := t.(*Ref); tt != nil { if du.Directive = root.dirs.get(t.Name()); du.Directive == nil { return fmt.Errorf("%w error, '%s' not defined at %d:%d", ErrValidation, t.Name(), du.line, du.col) } } } return }`:
+			dirRefTypeFirst = "true"
+		case `{ for _, du := range dirs { t := du.Directive if _, ok := t.(*Directive); ok { continue } if d := root.dirs.get(t.Name()); d != nil { du.Directive = d } else if _, ok := t.(*Ref); ok { return fmt.Errorf("%w error, '%s' not defined at %d:%d", ErrValidation, t.Name(), du.line, du.col) } } return }`:
+			dirRefTypeFirst = "false"
+		default:
+			dirRefTypeFirst = unknown("replaceDirRefs body", c.pos(fd))
+		}
+	}
+	if fd := c.funcs["Root.addExtends"]; fd != nil {
+		src := norm(fd.Body)
+		switch {
+		case strings.Contains(src, `} else if schema, _ := x.Adds.(*Schema); schema != nil { if root.schema != nil { undos = append(undos, root.schema.unextend()) } root.assureSchema() cur = root.schema }`) && strings.Count(src, "assureSchema") == 1:
+			extendSchemaNeedsSchema = "false"
+		case !strings.Contains(src, "assureSchema") && (strings.Contains(src, `} else if schema, _ := x.Adds.(*Schema); schema != nil && root.schema != nil { cur = root.schema }`) || strings.Contains(src, `} else if schema, _ := x.Adds.(*Schema); schema != nil { cur = root.schema }`)):
+			extendSchemaNeedsSchema = "true"
+		default:
+			extendSchemaNeedsSchema = unknown("addExtends schema arm", c.pos(fd))
+		}
+	}
+	return
 }
